@@ -649,6 +649,15 @@ def _prove_same(p, name, exp, got):
         p.prove(w, t)
 
 
+def _need_locals(env, names, what):
+    """a step contract talks about the loop's state through the function's local names; if they are not there (a
+    harmless rename), the contract cannot attach: undecided, never an alarm"""
+    missing = [n for n in names if n not in env]
+    if missing:
+        from pyvc.values import Unsupported
+        raise Unsupported('%s: step contract cannot attach, local name(s) %s not found' % (what, ', '.join(missing)))
+
+
 def prefix_step_unit(props):
     """decoder-while rule on the real loop body of Update.parse_prefix_list: from an ARBITRARY non-empty
     remaining string the body appends exactly the RFC element, leaves exactly the rest, and raises exactly for
@@ -659,6 +668,7 @@ def prefix_step_unit(props):
         if not isinstance(node, _ast.While):
             return _MISSING
         p = it.p
+        _need_locals(env, ('postfix', 'prefixes', 'addpath'), 'parse_prefix_list')
         pre = SBytes.fresh('postfix')
         p.assume(pre.len <= 4096)
         env['postfix'] = pre
@@ -737,6 +747,7 @@ def attr_header_step_unit(props):
             if not isinstance(node, _ast.While):
                 return _MISSING
             p = it2.p
+            _need_locals(env, ('postfix', 'attributes', 'asn4'), 'parse_attributes')
             pre = SBytes.fresh('postfix')
             p.assume(pre.len <= 4096)
             env['postfix'] = pre
